@@ -40,6 +40,10 @@ type VerifSimClient struct {
 	// Latency (opt-in, sim flavour): every Do/DoMulti/DoCache takes this much virtual time before it reaches the
 	// server (the calling thread sleeps), so a loop of round trips lets the virtual clock advance.
 	Latency time.Duration
+	// ReplyPoint (opt-in, sim flavour): a scheduling point between the server executing a Do and the reply reaching
+	// the caller, as in the real pipe where the reader thread wakes the caller and may already handle the push
+	// frames that follow the reply before the caller runs again.
+	ReplyPoint bool
 }
 
 type vsub struct {
@@ -276,6 +280,9 @@ func (c *VerifSimClient) Do(ctx context.Context, cmd Completed) (resp RedisResul
 		}
 	} else {
 		resp = c.raw(argv)
+		if c.ReplyPoint && vsched.Active() {
+			vsched.Point("simclient.reply", nil)
+		}
 	}
 	if resp.NonRedisError() == nil {
 		cmds.PutCompleted(cmd)
